@@ -80,7 +80,7 @@ class Walker:
         elif isinstance(n, ast.FunctionDeclaration):
             own = self.owner()
             self.owners.append("Fun")
-            self.e(ev="Enter", kind="Fun", name=n.name, tps=ser_tparams(n.type_parameters), t=[], owner=own)
+            self.e(ev="Enter", kind="Fun", name=n.name, tps=ser_tparams(n.type_parameters), t=[], owner=own, noret=n.ret_type is None)
             for p in n.params:
                 if p.default is not None:
                     self.walk(p.default)
